@@ -8,6 +8,16 @@ fresh widget; states that carry a preferred column are expanded further (memoise
 state) so that up/down chains are covered.  A seeded random-history check adds long mixed sequences
 without memoisation (catches history dependence such as stale caches).
 
+Two further families widen the scope where seeded changes were missed:
+  * numeric key alphabet: every numeric widget is offered, at every explored state, every character of
+    FOREIGN_KEYS / ASCII_EXTRA_KEYS that is outside its alphabet (non-ASCII decimal digits, characters that
+    are isdigit()/isnumeric() only, letters whose upper()/lower() is an ASCII letter, separator and minus
+    look-alikes, range neighbours of the ASCII digit and letter ranges, characters int()/float() tolerate);
+    the reference refuses such a key by itself (it does not ask the widget), so an accepted one fails model,
+    return-value and numeric-alphabet;
+  * preferred-column histories (see RAGGED_TEXTS): ragged texts, every key at every state that carries a
+    preferred column, an up/down probe after every key that must forget it.
+
 Clauses (one Check each): model (text+offset = reference), offset-valid, cursor-cell (render/cursor
 and the rendered rows = reference grid), click, signals, return-value, no-exception, numeric-alphabet,
 numeric-alphabet-initial, random-histories.
@@ -39,7 +49,7 @@ RULES = {
     "signals": "each modification emits exactly change(new text) while the old text is still held, then postchange(old text) once the new text is held; no signal without a modification",
     "return-value": "keys with an effect return None; keys the editor does not use are returned unchanged and leave text, cursor and signals untouched (keys without effect at a boundary may return either)",
     "no-exception": "no event, render or cursor query raises",
-    "numeric-alphabet": "IntEdit/IntegerEdit/FloatEdit never hold a character outside their alphabet after any key/click sequence, apart from one leading '-' when allow_negative",
+    "numeric-alphabet": "IntEdit/IntegerEdit/FloatEdit never hold a character outside their alphabet after any key/click sequence, apart from one leading '-' when allow_negative; the keys include characters outside every alphabet that Python's str methods / int() / float() treat as digits, numbers or the same letter",
     "numeric-alphabet-initial": "the same alphabet invariant directly after construction with a legitimately typed default",
     "random-histories": "seeded random event sequences (no memoisation): every clause above at every step",
 }
@@ -49,6 +59,36 @@ NAV_KEYS = ["left", "right", "up", "down", "home", "end", "backspace", "delete",
 UNUSED_KEYS = ["f1", "page up"]
 PREF_KEYS = ["up", "down", "left", "a", "delete", "f1"]
 NUM_KEYS = ["0", "5", "-", ".", ",", "a", "g", "left", "right", "home", "end", "backspace", "delete", "up", "down", "f1"]
+# Characters that are NOT in any numeric alphabet although some str method / conversion of Python says
+# "digit", "number" or "the same letter" -- one or more per Unicode category / pitfall:
+FOREIGN_KEYS = [
+    "\u0663",  # Nd ARABIC-INDIC DIGIT THREE: isdecimal/isdigit/isnumeric, int() accepts it
+    "\uff17",  # Nd FULLWIDTH DIGIT SEVEN (two columns)
+    "\u096b",  # Nd DEVANAGARI DIGIT FIVE
+    "\u00b2",  # No SUPERSCRIPT TWO: isdigit, not isdecimal (int() raises)
+    "\u2460",  # No CIRCLED DIGIT ONE: isdigit
+    "\u00bd",  # No VULGAR FRACTION ONE HALF: isnumeric only
+    "\u2167",  # Nl ROMAN NUMERAL EIGHT: isnumeric only
+    "\u4e09",  # Lo CJK three: isnumeric only, two columns
+    "\u0131",  # Ll DOTLESS I: upper() == 'I'
+    "\u017f",  # Ll LONG S: upper() == 'S', casefold() == 's'
+    "\ufb06",  # Ll LIGATURE ST: upper() == 'ST' (a substring of the digit string of base >= 30)
+    "\u212a",  # Lu KELVIN SIGN: lower() == 'k'
+    "\uff21",  # Lu FULLWIDTH A
+    "\u00e9",  # Ll e with acute: isalnum
+    "\uff0e",  # Po FULLWIDTH FULL STOP
+    "\u066b",  # Po ARABIC DECIMAL SEPARATOR
+    "\uff0c",  # Po FULLWIDTH COMMA
+    "\u2212",  # Sm MINUS SIGN
+    "\uff0d",  # Pd FULLWIDTH HYPHEN-MINUS
+    "\u00ad",  # Cf SOFT HYPHEN (zero width)
+    "\u0301",  # Mn COMBINING ACUTE (zero width)
+]
+# ASCII characters that int() / float() / Decimal() tolerate inside a number, or that are digits of another
+# base; each is offered to a numeric widget only when it is outside that widget's alphabet (so that the
+# state space does not grow), as are the FOREIGN_KEYS; "12" is a key name of two digits (not a character).
+ASCII_EXTRA_KEYS = ["9", "f", "F", "z", "Z", "_", " ", "+", "e", "x", "/", ":", "@", "`", "{"]
+MULTI_KEYS = ["12"]
 DIGITS36 = "0123456789ABCDEFGHIJKLMNOPQRSTUVWXYZ"
 # reporting caps (raise via the environment when triaging, to see every failure of a run)
 CAP_PER_CLASS = int(os.environ.get("C10_CAP_PER_CLASS", "3"))
@@ -89,6 +129,18 @@ def allowed_alphabet(cfg):
     if k == "floatedit":
         return set("0123456789" + cfg["sep"]), cfg["neg"]
     return None, False
+
+
+def in_alphabet(cfg, ch):
+    """may the widget of this configuration ever hold the character `ch`?  (the sign: only when allowed)"""
+    allowed, neg = allowed_alphabet(cfg)
+    return ch in allowed or (neg and ch == "-")
+
+
+def numeric_keys(cfg):
+    """event alphabet of one numeric configuration: the common keys plus every foreign / extra character that
+    is outside this configuration's alphabet"""
+    return NUM_KEYS + [k for k in FOREIGN_KEYS + ASCII_EXTRA_KEYS if not in_alphabet(cfg, k)] + MULTI_KEYS
 
 
 def alphabet_ok(cfg, text):
@@ -313,12 +365,18 @@ def apply_and_check(w, ref, cfg, ev, log):
         accepted = None
         tab_n = None
         if cfg["kind"] != "edit" and printable:
-            accepted = ret is None
+            # a character of the alphabet may still be refused (second separator, digit before the sign, ...):
+            # there the widget decides.  A character outside the alphabet is a key the editor does not use:
+            # the reference refuses it whatever the widget did.
+            accepted = (ret is None) if in_alphabet(cfg, ev) else False
         if ev == "tab" and cfg["allow_tab"]:
             tab_n = len(after_text) - len(before_text)
         res = ref.step(ev, accepted, tab_n)
     exp_text = ref.value()
     obs["reference"] = [repr(exp_text), ref.offset(), repr(ref.prefs)]
+    if cfg["kind"] != "edit" and printable and not in_alphabet(cfg, ev) and ret is None:
+        # classification aid for the failure details (the verdicts below do not read it)
+        obs["outside_alphabet_key"] = f"U+{ord(ev):04X}"
 
     # ---- offset-valid
     idx = _index_of_offset(cfg, after_text, after_pos)
@@ -513,14 +571,16 @@ def record(tally, cfg, text0, pos0, path, ev, verdicts, obs):
     for clause, (ok, why, nt) in verdicts.items():
         def detail(clause=clause, why=why):
             # inner_clause / zero_width_at: top-level copies for the known-finding predicates
-            return {"clause": clause, "inner_clause": clause, "why": why, "cfg": cfg, "text0": text0, "pos0": pos0, "path": list(path), "event": ev, "obs": obs, "zero_width_at": list(obs.get("zero_width_at", [])), "class": ("zero-width-row|" if obs.get("zero_width_at") else "") + _why_class(clause, why, ev)}
+            oak = obs.get("outside_alphabet_key")
+            cls = f"accepted-outside-alphabet-key|{oak}" if oak else ("zero-width-row|" if obs.get("zero_width_at") else "") + _why_class(clause, why, ev)
+            return {"clause": clause, "inner_clause": clause, "why": why, "cfg": cfg, "text0": text0, "pos0": pos0, "path": list(path), "event": ev, "obs": obs, "zero_width_at": list(obs.get("zero_width_at", [])), "outside_alphabet_key": oak, "class": cls}
 
         tally.case(clause, ok, nt, detail, sample={"cfg": cfg, "text0": text0, "pos0": pos0, "path": list(path), "event": ev})
 
 
 def events_for(cfg, ref, full, clicks, pref_keys=None):
     if cfg["kind"] != "edit":
-        evs = list(NUM_KEYS)
+        evs = numeric_keys(cfg)
     elif full is True:
         evs = PRINT_KEYS + NAV_KEYS + UNUSED_KEYS
     elif full == "probe":
@@ -613,25 +673,54 @@ def random_history(cfg, text0, pos0, events):
     return True, None
 
 
+PREF_RANDOM_KEYS = ["up"] * 4 + ["down"] * 4 + ["home", "end", "delete", "delete", "delete", "backspace", "backspace", "a", "中", "left", "right", "enter", "tab", "f1"]
+
+
+def _ragged_text(r):
+    """2..4 lines of unequal random lengths (0..6) over {a, b, space, 中}"""
+    lines = []
+    for _ in range(r.randint(2, 4)):
+        n = r.choice([0, 1, 1, 2, 3, 4, 6])
+        lines.append("".join(r.choice(["a", "a", "a", "b", " ", "中"]) for _ in range(n)))
+    return "\n".join(lines)
+
+
 def random_task(args):
-    cfgs, seed, chunk, count, length, maxlen = args
-    r = rng(seed * 1000 + chunk)
+    """Three families, each with a random stream of its own (so that widening one does not reshuffle the
+    others): 'generic' (any configuration, short random text, all keys), 'pref' (preferred-column stress:
+    ragged text, mostly vertical moves and deletions), 'foreign' (numeric widgets, keys inside and outside
+    the alphabet half and half)."""
+    cfgs, seed, chunk, count, length, maxlen, pcfgs, pcount, ncfgs, ncount = args
+    streams = {"generic": rng(seed * 1000 + chunk), "pref": rng(seed * 1000 + chunk + 500_000), "foreign": rng(seed * 1000 + chunk + 700_000)}
     tally = Tally()
     cpu0 = time.process_time()
     with _Utf8():
-        for k in range(count):
-            cfg = cfgs[r.randrange(len(cfgs))]
-            if cfg["kind"] == "edit":
-                alpha = ["a", "b", " ", "\n", "中", "́"]
-                text0 = "".join(r.choice(alpha) for _ in range(r.randint(0, maxlen)))
+        for family in ["generic"] * count + ["pref"] * pcount + ["foreign"] * ncount:
+            r = streams[family]
+            stress = family == "pref"
+            if stress:
+                cfg = pcfgs[r.randrange(len(pcfgs))]
+                text0 = _ragged_text(r)
                 pos0 = r.randint(0, len(text0))
-                keys = PRINT_KEYS + NAV_KEYS + NAV_KEYS + UNUSED_KEYS
-            else:
+                keys = PREF_RANDOM_KEYS
+            elif family == "foreign":
+                cfg = ncfgs[r.randrange(len(ncfgs))]
                 text0, pos0 = "", 0
-                keys = NUM_KEYS
+                outside = [k for k in numeric_keys(cfg) if k not in NUM_KEYS]
+                keys = NUM_KEYS * (1 + len(outside) // len(NUM_KEYS)) + outside
+            else:
+                cfg = cfgs[r.randrange(len(cfgs))]
+                if cfg["kind"] == "edit":
+                    alpha = ["a", "b", " ", "\n", "中", "́"]
+                    text0 = "".join(r.choice(alpha) for _ in range(r.randint(0, maxlen)))
+                    pos0 = r.randint(0, len(text0))
+                    keys = PRINT_KEYS + NAV_KEYS + NAV_KEYS + UNUSED_KEYS
+                else:
+                    text0, pos0 = "", 0
+                    keys = NUM_KEYS
             events = []
-            for _ in range(length):
-                if r.random() < 0.15:
+            for _ in range(length + 2 if stress else length):
+                if r.random() < (0.08 if stress else 0.15):
                     events.append(("click", r.randrange(cfg["W"]), r.randrange(4)))
                 else:
                     events.append(r.choice(keys))
@@ -639,7 +728,9 @@ def random_task(args):
 
             def detail(info=info, cfg=cfg, text0=text0, pos0=pos0, events=events):
                 zw = list((info.get("obs") or {}).get("zero_width_at", []))
-                return {"clause": "random-histories", "inner_clause": info.get("clause"), "event": info.get("event"), "why": f"step {info.get('step')}: [{info.get('clause')}] {info.get('why')}", "cfg": cfg, "text0": text0, "pos0": pos0, "events": events, "obs": info.get("obs"), "zero_width_at": zw, "class": ("zero-width-row|" if zw else "") + _why_class(info.get("clause", ""), str(info.get("why")), info.get("event"))}
+                oak = (info.get("obs") or {}).get("outside_alphabet_key")
+                cls = f"accepted-outside-alphabet-key|{oak}" if oak else ("zero-width-row|" if zw else "") + _why_class(info.get("clause", ""), str(info.get("why")), info.get("event"))
+                return {"clause": "random-histories", "inner_clause": info.get("clause"), "event": info.get("event"), "why": f"step {info.get('step')}: [{info.get('clause')}] {info.get('why')}", "cfg": cfg, "text0": text0, "pos0": pos0, "events": events, "obs": info.get("obs"), "zero_width_at": zw, "outside_alphabet_key": oak, "class": cls}
 
             tally.case("random-histories", ok, True, detail, sample={"cfg": cfg, "text0": text0, "pos0": pos0, "events": events})
     tally.cpu = time.process_time() - cpu0
@@ -650,14 +741,19 @@ def random_task(args):
 # numeric constructors
 def numeric_initial_cases():
     defaults_int = [None, "", 0, 7, -5, "0", "12", "007", Decimal("12"), Decimal("-3")]
+    # str defaults that a validating constructor (IntegerEdit / FloatEdit check str defaults; IntEdit documents
+    # none and is left out) must either refuse or normalise into its alphabet: non-ASCII decimal digits,
+    # letters that case-fold / upper-case to ASCII letters, and spellings float() / Decimal() accept
+    unicode_int = ["\u0663", "\uff11\uff12", "\u00b2", "\u0131", "\u017f", "\u212a", "1_0", " 5", "+5"]
+    unicode_float = ["\u0663", "\uff11.\uff15", "\u00b2", "1_0", " 5", "+5", "nan", "inf", "-inf"]
     out = []
-    for d in defaults_int:
-        if not isinstance(d, Decimal):
+    for d in defaults_int + unicode_int:
+        if not isinstance(d, Decimal) and d not in unicode_int:
             out.append(("IntEdit", {"default": d}))
-        for base in (2, 10, 16):
+        for base in (2, 10, 16, 36):
             for neg in (False, True):
                 out.append(("IntegerEdit", {"default": d, "base": base, "allow_negative": neg}))
-    for d in [None, "", 0, 7, -5, "0", "12", "1.50", "-1.5", "1e5", "1E-7", Decimal("12"), Decimal("1.5"), Decimal("1E+2"), Decimal("0.0000001")]:
+    for d in [None, "", 0, 7, -5, "0", "12", "1.50", "-1.5", "1e5", "1E-7", Decimal("12"), Decimal("1.5"), Decimal("1E+2"), Decimal("0.0000001"), *unicode_float]:
         for sep in (".", ","):
             for neg in (False, True):
                 out.append(("FloatEdit", {"default": d, "decimal_separator": sep, "allow_negative": neg}))
@@ -745,7 +841,10 @@ def numeric_configs(tier):
     shapes = [(2, "any", "left")] if quick else [(2, "any", "left"), (3, "space", "right"), (2, "clip", "center")]
     for W, wrap, align in shapes:
         out.append(num_cfg("intedit", W, wrap, align))
-        for base, neg in ((10, False), (10, True), (16, True), (2, False)):
+        # base 36: the whole digit string "0..9A..Z" is the alphabet (case mappings / substring tests of
+        # non-ASCII letters land in it); base 20: 'I' is a digit (U+0131 upper-cases to it), 'S' is not
+        bases = ((10, False), (10, True), (16, True), (2, False), (36, True)) if (quick or W != 2) else ((10, False), (10, True), (16, True), (2, False), (36, True), (20, False), (30, False))
+        for base, neg in bases:
             out.append(num_cfg("integeredit", W, wrap, align, base=base, neg=neg))
         for sep in (".", ","):
             for neg in (False, True):
@@ -765,6 +864,53 @@ def text_sets(tier):
     return list(dict.fromkeys(core)), list(dict.fromkeys(other))
 
 
+# ---- preferred-column histories ------------------------------------------------------------------
+# "move one display row keeping the preferred column": the column is kept across consecutive up/down moves
+# only; every other operation (insert, delete, backspace, left, right, enter, tab, home/end, a click) ends the
+# chain, the next up/down starts from the cell the cursor is really drawn in.  A remembered column that
+# outlives such an operation shows only when (1) it differs from the cursor's real column -- the cursor went
+# through a row shorter than the column, or home/end/a click on a blank cell set it -- and (2) the row moved to
+# afterwards tells the two columns apart.  Hence ragged texts (rows of different lengths: short or empty row
+# between longer ones, staircase, wide characters, rows made by wrapping, a clipped row longer than the
+# widget) and every alignment (right/centre: 'home' is not column 0); all keys at every state that carries a
+# preferred column, and an up/down probe on the same widget after every key that must forget it.
+PREF_FULL_KEYS = ["up", "down", "home", "end", "left", "right", "a", "delete", "backspace", "enter", "tab", "f1"]
+RAGGED_TEXTS = [
+    "aaa\na\naaa",  # short row between two longer ones
+    "aaa\n\naa",  # empty row in the middle
+    "a\naaaa\naa",  # long row in the middle
+    "aaaa\naa\na\naaa",  # staircase
+    "a中a\na\n中中",  # columns inside wide characters
+    "aaaa a aaa",  # rows made by wrapping (wrap space: aaaa / a / aaa at width 4)
+    "aaaaaa\na\naaa",  # a row longer than the widget (wrapped, or clipped with the view shifted)
+    # thorough tier only:
+    "aa\naaa\n\naaaa\na",
+    "中a\n\na中a\na",
+    "aa aaaa a\naaa",
+    "a\n\n\naaa",
+    "aaa\na\naaa\na\naaa",
+]
+
+
+def pref_configs(tier):
+    quick = tier == "quick"
+    cfgs = []
+    for W in (4,) if quick else (3, 4, 5):
+        for wrap in ("space", "any", "clip"):
+            for align in ("left", "right", "center"):
+                cfgs.append(edit_cfg("", W, wrap, align, multiline=True))
+    cfgs.append(edit_cfg("", 3, "any", "left", multiline=True))
+    cfgs.append(edit_cfg("", 3, "space", "right", multiline=True))
+    cfgs.append(edit_cfg("a", 4, "space", "right", multiline=True, allow_tab=True))
+    cfgs.append(edit_cfg("", 4, "any", "left", multiline=True, unit="bytes"))
+    cfgs.append(edit_cfg("", 5, "clip", "center", multiline=True, mask="*"))
+    return list({repr(c): c for c in cfgs}.values())
+
+
+def pref_texts(tier):
+    return RAGGED_TEXTS[:7] if tier == "quick" else RAGGED_TEXTS
+
+
 def is_core(cfg):
     return cfg["caption"] == "" and cfg["unit"] == "str" and cfg["mask"] is None and not cfg["allow_tab"]
 
@@ -774,7 +920,9 @@ def tasks_for(tier):
     core_texts, other_texts = text_sets(tier)
     tasks = []
     for cfg in numeric_configs(tier):
-        tasks.append({"cfg": cfg, "inits": [("", 0)], "depth": 4 if quick else 5, "expand_len": 3 if quick else 4, "click_depth": 2})
+        # (base > 16: 'a' and 'g' are both digits, the state space is larger -- texts one shorter in the quick tier)
+        big = cfg.get("base", 10) > 16
+        tasks.append({"cfg": cfg, "inits": [("", 0)], "depth": 4 if quick else 5, "expand_len": (2 if big else 3) if quick else 4, "click_depth": 2})
     per_task = 80 if quick else 400
     for ci, cfg in enumerate(configs(tier)):
         texts = core_texts if is_core(cfg) else other_texts
@@ -787,7 +935,15 @@ def tasks_for(tier):
             inits = [x for k, x in enumerate(inits) if (k + ci) % 2 == 0]
         for i in range(0, len(inits), per_task):
             depth = 2 if quick else 4
-            tasks.append({"cfg": cfg, "inits": inits[i : i + per_task], "depth": depth, "expand_len": 8, "click_depth": 1 if (not quick and is_core(cfg)) else 0, "pref_keys": ["up", "down", "a"] if quick else PREF_KEYS})
+            tasks.append({"cfg": cfg, "inits": inits[i : i + per_task], "depth": depth, "expand_len": 8, "click_depth": 1 if (not quick and is_core(cfg)) else 0, "pref_keys": ["up", "down", "a", "delete"] if quick else PREF_KEYS})
+    # preferred-column histories: ragged texts x every cursor, every key at every state with a preferred column
+    for cfg in pref_configs(tier):
+        inits = [(t, p) for t in pref_texts(tier) for p in range(len(t) + 1)]
+        # quick tier: event sequences of length 3 (mover, key, up/down probe) everywhere, of length 4 for one
+        # configuration per wrap mode (width 4; left, right and centre once each)
+        deep = (cfg["W"], cfg["wrap"], cfg["align"], cfg["caption"], cfg["unit"]) in ((4, "any", "left", "", "str"), (4, "space", "right", "", "str"), (4, "clip", "center", "", "str"))
+        for i in range(0, len(inits), 40):
+            tasks.append({"cfg": cfg, "inits": inits[i : i + 40], "depth": (3 if deep else 2) if quick else 4, "expand_len": 20, "click_depth": 0, "pref_keys": PREF_FULL_KEYS, "family": "pref"})
     return tasks
 
 
@@ -848,7 +1004,8 @@ def run(tier="quick", seed=0):
     t0 = time.time()
     procs = min(16, os.cpu_count() or 1)
     tasks = tasks_for(tier)
-    tasks.sort(key=lambda t: -(len(t["inits"]) if t["cfg"]["kind"] == "edit" else 10**6))
+    # longest first (rough cost: numeric tasks, then the preferred-column tasks -- about 3x / 7x an ordinary initial state)
+    tasks.sort(key=lambda t: -((len(t["inits"]) * ((7 if t["depth"] >= 3 else 3) if t.get("family") == "pref" else 1)) if t["cfg"]["kind"] == "edit" else 10**6))
     core_texts, other_texts = text_sets(tier)
     total = Tally()
     for t in _pool_map(explore, tasks, procs):
@@ -859,7 +1016,9 @@ def run(tier="quick", seed=0):
         f"Edit: {ncfg} configurations (wrap space/any/clip x align x width 1..{4 if tier == 'quick' else 6}; captions, multiline/allow_tab/mask, str and UTF-8 bytes) x "
         f"{len(core_texts)} texts for the {sum(1 for c in configs(tier) if is_core(c))} plain configurations ({'all of length <= 2 over {a, space, newline, 中, U+0301}, all <= 3 over {a, space, 中}, 6 longer ones' if tier == 'quick' else 'all <= 3 over {a, space, newline, 中, U+0301}, all <= 4 over {a, space, 中}, 11 longer ones (up to 9 characters)'}) and {len(other_texts)} texts ({'all <= 2, 6 longer' if tier == 'quick' else 'all <= 2, all <= 3 without U+0301, 11 longer'}) for the others "
         f"x every cursor{' (quick tier: every second (text, cursor) pair, the phase alternating with the configuration)' if tier == 'quick' else ''} x every event ({len(PRINT_KEYS + NAV_KEYS + UNUSED_KEYS)} keys, a click on every cell, a button-3 press), "
-        f"preferred-column states expanded to event sequences of length {2 if tier == 'quick' else 4}; numeric: {nnum} configurations, all key sequences up to length {4 if tier == 'quick' else 5} over {len(NUM_KEYS)} keys from the empty widget (memoised on state)"
+        f"preferred-column states expanded to event sequences of length {2 if tier == 'quick' else 4}; "
+        f"preferred-column histories: {len(pref_configs(tier))} configurations (width 3..5, every wrap x align at width {'4' if tier == 'quick' else '3, 4, 5'}, caption, UTF-8 bytes, mask) x {len(pref_texts(tier))} ragged texts (2..5 rows of unequal length incl. empty rows, wide characters, wrapped and clipped rows) x every cursor x every event, then all of {len(PREF_FULL_KEYS)} keys at every state that carries a preferred column and an up/down probe after every key that must forget it, event sequences up to length {'3 (4 for one configuration per wrap mode)' if tier == 'quick' else 5}; "
+        f"numeric: {nnum} configurations (IntEdit, IntegerEdit base 2/10/16/36{'' if tier == 'quick' else '/20/30'}, FloatEdit), all key sequences up to length {4 if tier == 'quick' else 5} from the empty widget (memoised on state) over {len(NUM_KEYS)} common keys plus every one of {len(FOREIGN_KEYS)} non-ASCII characters (Nd/No/Nl/Lo digits and numbers, letters whose upper()/lower() is an ASCII letter, separator and minus look-alikes, Cf/Mn) and {len(ASCII_EXTRA_KEYS)} ASCII characters (digits of other bases, range neighbours of 0-9/A-Z/a-z, characters int()/float() tolerate) that is outside the configuration's alphabet, and the two-digit key name '12'"
     )
     checks = []
     for clause in CLAUSES:
@@ -867,7 +1026,7 @@ def run(tier="quick", seed=0):
 
     # numeric constructors
     t1 = time.time()
-    chk = Check(f"{ID}/numeric-alphabet-initial", RULES["numeric-alphabet-initial"], True, "IntEdit / IntegerEdit(base 2,10,16; allow_negative) / FloatEdit(separator . and , ; allow_negative) x defaults None, '', ints, numeric strings, Decimals")
+    chk = Check(f"{ID}/numeric-alphabet-initial", RULES["numeric-alphabet-initial"], True, "IntEdit / IntegerEdit(base 2,10,16,36; allow_negative) / FloatEdit(separator . and , ; allow_negative) x defaults None, '', ints, numeric strings, Decimals; for the two validating constructors also str defaults with non-ASCII digits, case-mapping letters (U+0131, U+017F, U+212A), '_', blank, '+', nan/inf")
     with _Utf8():
         for ctor, kw in numeric_initial_cases():
             ok, why, nt, text = numeric_initial_one(ctor, kw)
@@ -877,14 +1036,19 @@ def run(tier="quick", seed=0):
 
     # random histories
     t2 = time.time()
-    allcfgs = configs(tier) + numeric_configs(tier)
+    # (the generic family keeps the configuration list it has always drawn from; the numeric configurations added
+    # later -- base > 16 -- are drawn by the 'foreign' family)
+    numcfgs = numeric_configs(tier)
+    allcfgs = configs(tier) + [c for c in numcfgs if c.get("base", 10) <= 16]
     nchunks = procs * 2
     count = 150 if tier == "quick" else 2500
     length = 8 if tier == "quick" else 10
     rtotal = Tally()
-    for t in _pool_map(random_task, [(allcfgs, seed, i, count, length, 6) for i in range(nchunks)], procs):
+    pcount = 60 if tier == "quick" else 1500
+    ncount = 40 if tier == "quick" else 800
+    for t in _pool_map(random_task, [(allcfgs, seed, i, count, length, 6, pref_configs(tier), pcount, numcfgs, ncount) for i in range(nchunks)], procs):
         _merge(rtotal, t)
-    checks.append(_result(f"{ID}/random-histories", RULES["random-histories"], f"{nchunks * count} seeded sequences of {length} events, random configuration from the same set, initial text <= 6 over {{a, b, space, newline, 中, U+0301}}", False, rtotal, "random-histories", t2))
+    checks.append(_result(f"{ID}/random-histories", RULES["random-histories"], f"{nchunks * count} seeded sequences of {length} events, random configuration from the same set, initial text <= 6 over {{a, b, space, newline, 中, U+0301}}; plus {nchunks * pcount} preferred-column stress sequences of {length + 2} events (ragged initial text of 2..4 lines of length 0..6 over {{a, b, space, 中}}, {len(pref_configs(tier))} configurations, 40% up/down, 25% delete/backspace, home/end/insert/left/right/enter/tab/clicks); plus {nchunks * ncount} sequences of {length} events on the {len(numcfgs)} numeric configurations with keys inside and outside the alphabet half and half", False, rtotal, "random-histories", t2))
     return {"checks": checks, "bound": bound}
 
 
